@@ -96,3 +96,65 @@ def judge_create_from(S, solute, ctext, Y, qtext):
     return {'ok': not fails, 'observed': {'solution': {s.name: v for s, v in sol.contents.items()}, 'concentration': got,
                                           'total': measure(sol, qb)}, 'expected': f'{q} {qb} at {target} {nb}/{db}',
             'failed': fails[:5]}
+
+
+def judge_create_solution(J, subs, mk_container):
+    from pyplate import Container
+    n = J['n']
+    solutes = [subs[f'solute{i}'] for i in range(n)]
+    solvent = mk_container(J['Y'], subs, 'Y') if J['Y'] else subs['solvent']
+    ycont = J['Y'] is not None
+    kwargs = {}
+    cvals = [float(F(x)) for x in J['c']]
+    qvals = [float(F(x)) for x in J['q']]
+    Tval = float(F(J['T']))
+    qunits = ['U' if s.is_enzyme() else (J['qunit'] if J['qunit'] != 'U' else 'g') for s in solutes]
+    if 'c' in J['given']:
+        v = ['%r %s' % (c, J['cunit']) for c in cvals]
+        kwargs['concentration'] = v[0] if n == 1 else v
+    if 'q' in J['given']:
+        v = ['%r %s' % (q, u) for q, u in zip(qvals, qunits)]
+        kwargs['quantity'] = v[0] if n == 1 else v
+    if 't' in J['given']:
+        kwargs['total_quantity'] = '%r %s' % (Tval, J['tunit'])
+    fpY = fingerprint(solvent) if ycont else None
+    fails = []
+    try:
+        out = Container.create_solution(solutes[0] if n == 1 else solutes, solvent, 'sol', **kwargs)
+    except ValueError as e:
+        return {'ok': True, 'observed': f'ValueError: {e}', 'expected': 'a solution or ValueError', 'failed': []}
+    except Exception as e:
+        return {'ok': False, 'observed': repr(e), 'expected': 'a solution or ValueError', 'failed': [type(e).__name__]}
+    resid, R = (out if ycont else (None, out))
+    if ycont and fingerprint(solvent) != fpY:
+        fails.append('solvent container modified')
+    named = set(solutes) | (set(solvent.contents) if ycont else {solvent})
+    if set(R.contents) != named:
+        fails.append(f'contents {[s.name for s in R.contents]} differ from the named substances')
+    if any(v <= 0 for v in R.contents.values()):
+        fails.append(f'non-positive amount: { {s.name: v for s, v in R.contents.items()} }')
+    check_container(R, 'solution', fails)
+    nb, db = J['cunit'].split('/')
+    if 'c' in J['given']:
+        for s, c in zip(solutes, cvals):
+            den = concentration_denotation('%r %s' % (c, J['cunit']))
+            got = conc(R, s, den[1], den[2])
+            if not close(got, float(den[0]), 1e-6):
+                fails.append(f'concentration of {s.name} is {got}, requested {float(den[0])} {den[1]}/{den[2]}')
+    if 'q' in J['given']:
+        for s, q, u in zip(solutes, qvals, qunits):
+            qd = quantity_denotation('%r %s' % (q, u))
+            fb, amt = base_amount(s, R.contents.get(s, 0))
+            have = amt * float(spec.factor(subspec(s), fb, qd[1]))
+            if not close(have, float(qd[0]), 1e-6, 2e-6):
+                fails.append(f'quantity of {s.name} is {have} {qd[1]}, requested {float(qd[0])}')
+    if 't' in J['given']:
+        qd = quantity_denotation('%r %s' % (Tval, J['tunit']))
+        if not close(measure(R, qd[1]), float(qd[0]), 1e-6):
+            fails.append(f'total is {measure(R, qd[1])} {qd[1]}, requested {float(qd[0])}')
+    if ycont:
+        for s in solvent.contents:
+            if not close(resid.contents.get(s, 0) + R.contents.get(s, 0), solvent.contents[s], 1e-7, 1e-6):
+                fails.append(f'{s.name} of the solvent container lost or created')
+    return {'ok': not fails, 'observed': {s.name: v for s, v in R.contents.items()}, 'expected': 'all stated constraints',
+            'failed': fails[:5]}
